@@ -53,7 +53,18 @@ func c08(args []string) error {
 			scheme = crypto.NameEDDSA // BLS with 7 replicas is slow: sampled
 		}
 		const R = 2
-		nodes, err := hx.NewNodes(hx.NodeOpts{N: n, Scheme: scheme, Ruleset: rs,
+		// BLS keys are derived from the seed (the other schemes' generators do not take a seed): a sequence is then replayable
+		var keys []hotstuff.PrivateKey
+		if scheme == crypto.NameBLS12 {
+			for i := 0; i < n; i++ {
+				kb := make([]byte, 31)
+				rng.Read(kb)
+				k := &crypto.BLS12PrivateKey{}
+				k.FromBytes(kb)
+				keys = append(keys, k)
+			}
+		}
+		nodes, err := hx.NewNodes(hx.NodeOpts{N: n, Scheme: scheme, Ruleset: rs, Keys: keys,
 			Leader: func(*core.RuntimeConfig) leaderrotation.LeaderRotation { return leaderrotation.NewFixed(1) }})
 		if err != nil {
 			return err
